@@ -137,6 +137,68 @@ def r1(ctx):
         ctx.ok('C02.R1', fi, prod[0], 'map(h*T)')
 
 
+def _alpha(e):
+    """Text of an expression with the bound variables of its comprehensions
+    numbered in order of appearance (their names are not facts)."""
+    e = U._clone(e)
+    k = 0
+    for c in ast.walk(e):
+        if not isinstance(c, (ast.ListComp, ast.SetComp, ast.GeneratorExp,
+                              ast.DictComp)):
+            continue
+        for g_ in c.generators:
+            for t in ast.walk(g_.target):
+                if isinstance(t, ast.Name) and not t.id.startswith('_bv'):
+                    old, new = t.id, '_bv%d' % k
+                    k += 1
+                    for n in ast.walk(c):
+                        if isinstance(n, ast.Name) and n.id == old:
+                            n.id = new
+    return _strip(e)
+
+
+def _built_from(fn, e):
+    """Locals of fn that the value of `e` is built from (transitively through
+    their plain definitions)."""
+    seen, todo = set(), [e]
+    while todo:
+        x = todo.pop()
+        for n in ast.walk(x):
+            if isinstance(n, ast.Name) and n.id not in seen and \
+                    U.assigns_of(fn, n.id):
+                seen.add(n.id)
+                todo += [d for d in U.defs_of(fn, n.id) if d is not None]
+    return seen
+
+
+def _modified_in_place(fn, names):
+    """Some local of `names` is stored through (x[..] = / x.a = / del x[..]),
+    updated by an augmented assignment or is the receiver of a method-call
+    statement (x.append(..), x.sort()) somewhere in fn."""
+    def root(t):
+        while isinstance(t, (ast.Subscript, ast.Attribute, ast.Starred)):
+            t = t.value
+        return t.id if isinstance(t, ast.Name) else None
+    for x in walk_no_nested(fn):
+        tg = []
+        if isinstance(x, ast.Assign):
+            tg = [t for t in x.targets if not isinstance(t, ast.Name)]
+        elif isinstance(x, ast.AugAssign):
+            tg = [x.target]
+        elif isinstance(x, ast.Delete):
+            tg = list(x.targets)
+        elif isinstance(x, ast.Expr) and isinstance(x.value, ast.Call) and \
+                isinstance(x.value.func, ast.Attribute):
+            tg = [x.value.func]
+        while tg:
+            t = tg.pop()
+            if isinstance(t, (ast.Tuple, ast.List)):
+                tg += [y for y in t.elts if not isinstance(y, ast.Name)]
+            elif root(t) in names:
+                return True
+    return False
+
+
 def r2(ctx):
     repo = ctx.repo
     fi = repo.func('reactor', 'Reactor.axial_step')
@@ -195,11 +257,22 @@ def r2(ctx):
     # duct argument of the gap update
     gc = [x for x in ast.walk(gap_calls[0].stmt) if isinstance(x, ast.Call)
           and call_name(x) == 'self.core.calculate_gap_temperatures'][0]
-    td = U.single_def(fi.node, src(gc.args[1])) if len(gc.args) > 1 and \
-        isinstance(gc.args[1], ast.Name) else None
-    ok = td is not None and _strip(td) == _strip(
+    # decided on the VALUE handed over: the argument expanded flow-sensitively
+    # at the call (a local, a chain of locals or the expression in place),
+    # compared up to the names of comprehension-bound variables; none of the
+    # locals it is built from may be modified in place anywhere in the step
+    td = None
+    if len(gc.args) > 1:
+        bound = {n.id for c_ in ast.walk(fi.node) if isinstance(
+            c_, ast.comprehension) for n in ast.walk(c_.target)
+            if isinstance(n, ast.Name)}
+        td = ast.copy_location(U.value_at(fi.node, gc.args[1], gc.lineno,
+                                          keep=bound), gc)
+    ok = td is not None and _alpha(td) == _alpha(ast.parse(
         "np.array([dassh.mesh_functions.map_across_gap(a.duct_outer_surf_temp"
-        ", a.active_region._map['duct2gap']) for a in self.assemblies])")
+        ", a.active_region._map['duct2gap']) for a in self.assemblies])",
+        mode='eval').body) and not _modified_in_place(
+            fi.node, _built_from(fi.node, gc.args[1]))
     ctx.require(ok, 'C02.R2', fi, td if td is not None else gc,
                 'the gap must see the new outer-duct surface temperatures of '
                 'every assembly mapped with duct2gap, in assembly order',
